@@ -157,6 +157,22 @@ fn chk_codec(c: Compression, kind: u64, size: usize, seed: u64) -> Result<(), St
     if pmtiles2::util::decompress_all(c, &up).map_err(|e| format!("decompress_all(upstream stream): {e}"))? != data {
         return Err("decompress_all of an upstream-produced stream differs".into());
     }
+    // ... and what other settings of the upstream encoders produce (levels, window sizes, framing, checksums)
+    for k in 0..3u64 {
+        let up = spec::codec_compress_variety(code, &data, seed.wrapping_mul(2654435761).wrapping_add(k * 104_729));
+        if pmtiles2::util::decompress_all(c, &up).map_err(|e| format!("decompress_all(stream of another encoder setting): {e}"))? != data {
+            return Err("decompress_all of a stream produced with another encoder setting differs".into());
+        }
+        let mut src = std::io::Cursor::new(&up[..]);
+        let mut got = Vec::new();
+        {
+            let mut r = pmtiles2::util::decompress(c, &mut src).map_err(|e| e.to_string())?;
+            std::io::Read::read_to_end(&mut r, &mut got).map_err(|e| format!("decompress(stream of another encoder setting): {e}"))?;
+        }
+        if got != data {
+            return Err("decompress of a stream produced with another encoder setting differs".into());
+        }
+    }
     // streaming writer with a chunk schedule, finished by flush + drop
     for round in 0..3 {
         let mut out = Vec::<u8>::new();
